@@ -138,6 +138,11 @@ class Shape(str, Enum):
 
 class CodeGenerator(abc.ABC):
     variable_prefix = ""
+    # Names that the generated functions use themselves. A state, parameter or
+    # expression with such a name would capture (or be captured by) them
+    reserved_names: frozenset[str] = frozenset(
+        {"states", "parameters", "values", "shape", "dt", "t", "time", "missing_variables"}
+    )
     # The formal parameter holding the missing variables (typed in C)
     missing_variables_argument = "missing_variables"
 
@@ -148,6 +153,7 @@ class CodeGenerator(abc.ABC):
         shape: Shape = Shape.dynamic,
     ) -> None:
         self.ode = ode
+        self._check_reserved_names()
         self.remove_unused = remove_unused
         self._missing_variables = ode.missing_variables
         self._shape = shape
@@ -157,6 +163,23 @@ class CodeGenerator(abc.ABC):
             self._condition = lambda x: x in self.deps
         else:
             self._condition = lambda x: True
+
+    def _is_reserved(self, name: str) -> bool:
+        return name in self.reserved_names
+
+    def _check_reserved_names(self) -> None:
+        from ..exceptions import ReservedSymbolError
+
+        atoms_ = (
+            self.ode.states
+            + self.ode.parameters
+            + self.ode.intermediates
+            + self.ode.state_derivatives
+        )
+        if reserved := {atom.name for atom in atoms_ if self._is_reserved(atom.name)}:
+            raise ReservedSymbolError(
+                reserved, reason="the generated code uses these names itself"
+            )
 
     def _formatter(self, code: str) -> str:
         """Alternative formatter that takes a code snippet
